@@ -1180,6 +1180,12 @@ class BasicReadStatement(BasicStatement):
             + ", ".join(rhs.basic09_text(indent_level) for rhs in self._rhs_list)
         )
 
+    def visit(self, visitor: "BasicConstructVisitor") -> None:
+        visitor.visit_statement(self)
+        for rhs in self._rhs_list:
+            if isinstance(rhs, BasicVar):
+                rhs.visit(visitor)
+
 
 class BasicInputStatement(BasicStatement):
     def __init__(self, message, rhs_list):
@@ -1198,6 +1204,12 @@ class BasicInputStatement(BasicStatement):
         return prefix + ", ".join(
             (rhs.basic09_text(indent_level) for rhs in self._rhs_list)
         )
+
+    def visit(self, visitor: "BasicConstructVisitor") -> None:
+        visitor.visit_statement(self)
+        for rhs in self._rhs_list:
+            if isinstance(rhs, BasicVar):
+                rhs.visit(visitor)
 
 
 class BasicVarptrExpression(AbstractBasicExpression):
